@@ -1,0 +1,59 @@
+//! Verification hook (compiled only with `--cfg filecoin_project_builtin_actors_verif`).
+//!
+//! Native test VMs charge no gas, so `JUMPDEST PUSH0 JUMP` would never return; the hook gives the
+//! interpreter loop a step budget and lets a harness observe every step (pc, opcode, stack,
+//! memory size) for step-by-step trace validation.  State is thread-local and off by default.
+use std::cell::{Cell, RefCell};
+
+use fil_actors_evm_shared::uints::U256;
+
+pub struct Step<'a> {
+    pub pc: usize,
+    pub op: u8,
+    pub stack: &'a [U256],
+    pub memory_size: usize,
+}
+
+pub type Observer = Box<dyn FnMut(&Step)>;
+
+thread_local! {
+    static FUEL: Cell<Option<u64>> = const { Cell::new(None) };
+    static OBSERVER: RefCell<Option<Observer>> = const { RefCell::new(None) };
+}
+
+/// Set the number of interpreter steps this thread may still execute (`None` = unlimited).
+pub fn set_fuel(fuel: Option<u64>) {
+    FUEL.with(|f| f.set(fuel));
+}
+
+pub fn fuel() -> Option<u64> {
+    FUEL.with(|f| f.get())
+}
+
+/// Install (or remove) the per-step observer of this thread.
+pub fn set_observer(obs: Option<Observer>) {
+    OBSERVER.with(|o| *o.borrow_mut() = obs);
+}
+
+/// Called by the interpreter loop before every instruction; `false` = out of fuel.
+pub fn on_step(step: &Step) -> bool {
+    let ok = FUEL.with(|f| match f.get() {
+        None => true,
+        Some(0) => false,
+        Some(n) => {
+            f.set(Some(n - 1));
+            true
+        }
+    });
+    if ok {
+        OBSERVER.with(|o| {
+            // re-entrant interpreters (nested calls) share the observer; skip if already borrowed
+            if let Ok(mut g) = o.try_borrow_mut()
+                && let Some(obs) = g.as_mut()
+            {
+                obs(step);
+            }
+        });
+    }
+    ok
+}
